@@ -40,7 +40,7 @@ POLYS = [
 def model_check(ctx):
     W = 4
     ctx.mc("Shapes", "MC_Shapes_q.cfg" if ctx.quick else "MC_Shapes_t.cfg", workers=W,
-           label="lattices with widths {1,2,3} (quick: 5 x 2 x 1 width triples, thorough: 33 x 3 x 2), sub-boxes on x, ellipsoids/cylinders with radii 1..3 on the quarter grid, "
+           label="lattices with widths {1,2,3} (quick: 5 x 2 x 1 width triples, thorough: 30 x 3 x 1), sub-boxes on x, ellipsoids/cylinders with radii 1..3 on the quarter grid, "
                  "8 polygons x 3 axes, shape centre on / a quarter unit off the box middle; Rasterise, Grow (monotone), Mirror (equivariant)")
     ctx.mc_negative("Shapes", "MC_Shapes_neg.cfg", workers=W)
     ctx.mc_negative("Shapes", "MC_Shapes_neg2.cfg", workers=W)
@@ -88,7 +88,7 @@ def _widths(rng, n):
 def gen_cases(ctx):
     rng = random.Random(ctx.seed)
     ctx.exhaustive = False
-    nU, nR, nD = (4, 5, 60) if ctx.quick else (60, 70, 1500)
+    nU, nR, nD = (4, 5, 60) if ctx.quick else (25, 30, 600)
     # U: uniform grid through place_objects; first scene = the catalogue polygons on all axes + round spheres
     objs = [{"kind": "poly", "q": [4, 4, 4], "axis": i % 3, "poly": p, "len": 1 + i % 2, "at": [i % 3, (i * 2) % 4, i % 2]} for i, p in enumerate(POLYS)]
     objs += [{"kind": "ell", "q": [q, q, q], "axis": 0, "poly": [], "len": 0, "at": [1, 0, 1]} for q in (4, 5, 6, 8, 10, 12)]
